@@ -91,6 +91,16 @@ uint32_t __vstd_stoi(uint8_t *s, uint64_t n)
 uint32_t __vstd_fmt_double_c(double v, uint32_t prec, uint8_t *buf, uint32_t cap)
 {
 #ifdef __CPROVER__
+    /* integral values of small magnitude print as plain decimal integers in %g with precision >= 6: exact */
+    if (v == v && v > -1000000.0 && v < 1000000.0 && (double)(int32_t)v == v && prec >= 6) {
+        int32_t iv = (int32_t)v; uint32_t m = iv < 0 ? (uint32_t)(-iv) : (uint32_t)iv; uint8_t tmp[8]; uint32_t k = 0, o = 0;
+        if (m == 0) tmp[k++] = '0';
+        while (m != 0 && k < 8) { tmp[k++] = (uint8_t)('0' + m % 10); m /= 10; }
+        if (iv < 0 || (iv == 0 && 1.0 / v < 0.0)) buf[o++] = '-';
+        while (k > 0) buf[o++] = tmp[--k];
+        buf[o] = 0;
+        return o;
+    }
     /* nondeterministic text in the %g output language: -?D(.D+)?(e[+-]DD+)? | -?D+(.D+)? | -?inf | -?nan */
     uint32_t n; int dot = 0, e = 0, ok = 1;
     __CPROVER_assume(n >= 1 && n < cap && n <= 24);
